@@ -28,6 +28,8 @@ def cases(tier, seed):
     bodies = ["pass", "two_stmts", "comment_block"] if tier == "quick" else None
     for key, src in P.single_programs(bodies=bodies):
         kind_, header_, docstyle_, body_ = key["defs"][0]
+        if tier == "quick" and kind_ in ("in_method", "under_if", "under_try") and (body_ != "pass" or header_ not in ("annotated", "positional", "defaults", "annotated_nodefault") or docstyle_ not in ("none", "rest", "google", "numpydoc")):
+            continue  # deeply indented definitions: quick tier on four headers x four docstring shapes
         if tier == "quick" and docstyle_ in P.DOCSTYLES[6:] and (body_ != "pass" or header_ in ("noparams", "varargs", "multiline", "callable_ann")):
             continue  # partial / reversed documentation: quick tier on one body and on the headers with two documentable parameters
         yield dict(kind="program", key=key)
